@@ -15,6 +15,9 @@ Inductive query :=
   | QOp (o : mop)
   | QDir (syms : list N) (clss : list N)          (* Unit(sym) for each, cls.units() for each *)
   | QMk (a : Q) (u : N) (via : option N)          (* Quantity(a, u) / cls(a, u) *)
+  (* cls(1, u).equiv_amount(reference unit) for units of unquantized types with
+     reference unit: the unit's scale as a user observes it *)
+  | QScales (syms : list N)
   (* (a * u) * rate / rate * (a * u) (mul) or (a * u) / rate, the rate being
      ExchangeRate(ru, mult, rt, amt) *)
   | QRate (mul : bool) (a : Q) (u : N) (ru : N) (mult : Q) (rt : N) (amt : Q).
@@ -22,7 +25,8 @@ Inductive query :=
 Inductive robs :=
   | RO (o : obs)
   | RPair (f : Q) (w : option N)
-  | RDir (us : list (option (N * N))) (cs : list (option (list N))).
+  | RDir (us : list (option (N * N))) (cs : list (option (list N)))
+  | RScales (l : list (option Q)).
 
 Record rcase := mkRCase {
   k_dm : mode;
@@ -94,6 +98,18 @@ Definition reg_model (pre : state) (c : rcase) : list (option err) * robs :=
                          | None => a end in
                obs_mres (apply_rate s' dm mul a' u r)
            end
+       | QScales syms =>
+           RScales (map (fun sym =>
+             match find_unit s' sym with
+             | Some u => match find_cls s' (ru_cls u) with
+                         | Some k => match rc_ref k, rc_quantum k with
+                                     | Some _, None => ru_equiv u
+                                     | _, _ => None
+                                     end
+                         | None => None
+                         end
+             | None => None
+             end) syms)
        | QMk a u via =>
            match find_unit s' u with
            | None => RO (OErr EOther)
@@ -116,6 +132,7 @@ Definition robs_eqb (a b : robs) : bool :=
   | RPair f w, RPair g v => qeqb f g && opt_eqb N.eqb w v
   | RDir us cs, RDir us' cs' =>
       list_eqb (opt_eqb pair_eqb) us us' && list_eqb (opt_eqb (list_eqb N.eqb)) cs cs'
+  | RScales l, RScales l' => list_eqb (opt_eqb qeqb) l l'
   | _, _ => false
   end.
 
